@@ -97,14 +97,30 @@ def impl_stream(case):
         k = case[pos]
         lines.append(''.join(map(chr, case[pos + 1:pos + 1 + k]))); pos += 1 + k
     out, fail = [], None
+    # the property's statement, line by line: blank and comment-only lines are skipped, a valid line gives its message, any other line is
+    # reported as (None, error) carrying ITS 1-based line number, and the stream carries on
+    expect = []
+    for no, line in enumerate(lines, 1):
+        body = line.split('#')[0].strip()
+        if not body:
+            continue
+        try:
+            expect.append(('msg', repr(mido.parse_string(body))))
+        except ValueError:
+            expect.append(('err', no))
+    got = []
     try:
         for m, err in mido.messages.parse_string_stream(lines):
             if m is not None:
                 out += [0] + canon.msg_ints(m) + canon_time(m.time) + [-9]
+                got.append(('msg', repr(m)))
             else:
                 pre = err.split(':')[0]
                 ln = int(pre[5:]) if pre.startswith('line ') and pre[5:].isdigit() else -1
                 out += [1, ln, -9]
+                got.append(('err', ln))
+        if got != expect:
+            fail = ('stream-lines', 'parse_string_stream(%r) yielded %r, expected %r' % (lines, got, expect))
     except Exception as e:  # noqa: BLE001
         out += [-1, core.exn_code(e)]
         fail = ('stream-dies:' + type(e).__name__, 'parse_string_stream stopped with %r on %r' % (e, lines))
